@@ -227,6 +227,12 @@ STATEMENT_FORMS = {
     "several-statements-per-line": ("a = 1 print a b = 2 print b\n", ["1", "2"]),
     "from-forms": ("from 0 to 2 {{\n\tprint \"a\"\n}}\nfrom 0 through 2 step 2 {{\n\tprint \"b\"\n}}\nfrom 0 through 2 step 2, i {{\n\tprint i\n}}\nfrom 1 to 3, j {{\n\tprint j\n}}\n".format(),
                    ["a", "a", "b", "b", "0", "2", "1", "2"]),
+    "typed-assignments-update": ("acc: int = 0\nfrom 0 to 3 {{\n\tacc: int = acc + 1\n}}\nprint acc\nif true {{\n\tacc: int = 10\n}}\nprint acc\n"
+                                 "f = fn() -> int {{\n\tacc: int = 5\n\treturn acc\n}}\nprint f()\nprint acc\nwhile acc > 8 {{\n\tacc: int = acc - 1\n}}\nprint acc\n".format(),
+                                 ["3", "10", "5", "10", "8"]),
+    "typed-assignments-other-types": ("s: str = \"a\"\nif true {{\n\ts: str = s + \"b\"\n}}\nprint s\nl: [int...] = [1]\nif true {{\n\tl: [int...] = [2, 3]\n}}\nprint l\n"
+                                      "o: int? = nil\nif true {{\n\to: int? = 4\n}}\nprint o\nb: bool = false\nwhile !b {{\n\tb: bool = true\n}}\nprint b\n".format(),
+                                      ["ab", "[2, 3]", "4", "true"]),
     "assert-forms": ("a = 1\nassert a == 1\nassert(a == 1)\nassert !(a == 2)\nprint \"ok\"\n", ["ok"]),
     "parenthesised-and-spaced-calls": ("f = fn(a: int, b: int) -> int {{\n\treturn a - b\n}}\nprint f( 5 , 2 )\nprint f(5,2)\nprint (f(5, 2))\nprint f(\n\t5,\n\t2\n)\n".format(), ["3", "3", "3", "3"]),
 }
@@ -287,7 +293,7 @@ class C01(Check):
             "counters.  Identifier spellings: 12 roles of an identifier (variable, function incl. call statements, parameter, loop counter, field / method, "
             "optional, const, list, first token after an expression line, unpack target, captured variable, argument / return) x every identifier-shaped word "
             "of grammar.pest extended by a letter, underscore or digit; the program must behave as with a neutral name.  Statement forms: 21 spellings / layouts of the core statements the skeleton printer never "
-            "produces (value-less return in 9 positions, comments, CRLF, else on the next line, empty and one-line blocks, several statements per line, "
+            "produces (value-less return in 9 positions, typed assignments that update a variable of an enclosing block, comments, CRLF, else on the next line, empty and one-line blocks, several statements per line, "
             "blank / indented lines, trailing blanks, no final newline, all from-loop headers, assert and call spellings).  Lexical transformations: every program of the other checks' generators (closures, objects, containers, "
             "optionals, failure chains, module graphs, expression trees) re-run with CR LF line ends / interleaved comments / extra blanks and empty lines; "
             "the output must not change.  State = the reference interpreter's configuration; every program is one model trace replayed on the implementation.")
